@@ -133,6 +133,7 @@ def run(ctx):
                    "xp is not restored from the stored array on unpickling", disc="xp")
 
     # ---- dict conversion
+    dict_order(ctx, repo, "C16.dictorder")
     for cn in CLASSES:
         C = repo.cls(f"{SAMPLES_MOD}:{cn}")
         td, fd = C.resolve("to_dict"), C.resolve("from_dict")
@@ -142,6 +143,56 @@ def run(ctx):
         ctx.decide(not bad, "C16.dict", f"{cn}.to_dict/from_dict", loc_of(fd),
                    f"every key emitted by to_dict ({len(emitted)}) is consumed or accepted by from_dict -> {cn}(...)" + (" (filtered to constructor fields)" if filters else ""),
                    f"to_dict emits {bad} which {cn}.__init__ does not accept and from_dict passes through **dictionary: {cn}.from_dict({cn}.to_dict()) raises TypeError", disc=cn)
+
+
+def dict_order(ctx, repo, rule):
+    """Columns are paired with parameter names by *name*: to_dict zips parameters
+    with the columns of x, from_dict stacks the stored columns in the order of the
+    parameter list it hands to the constructor (never in the mapping's own order)."""
+    from ..evalr import Evaluator
+
+    C = repo.cls(f"{SAMPLES_MOD}:BaseSamples")
+    fd = C.resolve("from_dict")
+    ev = Evaluator(repo, max_depth=1)
+    ev.run(fd, C)
+    news = [e for e in ev.events if e.callee.startswith("new:") and e.depth == 0]
+    if len(news) != 1:
+        ctx.unknown(rule, fd.ident, loc_of(fd), "from_dict does not construct exactly one sample set")
+        return
+    kw = dict(news[0].kwargs)
+    xs, ps = kw.get("x"), kw.get("parameters")
+    ok = xs is not None and ps is not None
+    why = ""
+    if ok:
+        for cond_leaf_x, cond_leaf_p in _paired_leaves(xs, ps):
+            lx, lp = cond_leaf_x, cond_leaf_p
+            good = lx[0] == "f" and lx[1] == "stack" and lx[2] and lx[2][0][0] == "f" and lx[2][0][1] == "listcomp"
+            if good:
+                body, gen = lx[2][0][2][0], lx[2][0][2][1]
+                el = ("f", "elem", (lp,), ())
+                good = gen[0] == "t" and gen[1][0] == lp and body[0] == "s" and body[2] == el and dict(lx[3]).get("axis") == T.neg(T.ONE)
+            if not good:
+                ok = False
+                why = f"coordinates are built as {T.show(lx)[:160]} while the parameter list is {T.show(lp)[:100]}"
+    ctx.decide(ok, rule, fd.ident, loc_of(fd, news[0].node), "from_dict stacks one column per parameter, looked up by name in the order of the parameter list it passes on",
+               f"from_dict does not stack the columns by parameter name in parameter order: {why} (columns are permuted when the mapping's order differs, e.g. after an HDF5 round trip, which sorts keys)", disc="from_dict")
+    td = C.resolve("to_dict")
+    ev2 = Evaluator(repo, max_depth=1)
+    ev2.run(td, C)
+    zips = [e for e in ev2.events if e.callee == "builtins.zip" and e.depth == 0]
+    okz = bool(zips) and all(e.args[0] == self_attr("parameters") and e.args[1] == ("attr", self_attr("x"), "T") for e in zips)
+    ctx.decide(okz, rule, td.ident, loc_of(td), "to_dict pairs each parameter name with its column of x",
+               "to_dict does not pair parameter names with the columns of x (zip(self.parameters, self.x.T))", disc="to_dict")
+
+
+def _paired_leaves(xs, ps):
+    """Leaves of the x term paired with the parameter-list value on the same path."""
+    if xs[0] == "phi":
+        c = xs[1]
+        yield from _paired_leaves(T.select(xs, c, True), T.select(ps, c, True))
+        yield from _paired_leaves(T.select(xs, c, False), T.select(ps, c, False))
+    else:
+        yield xs, ps
 
 
 def dict_schema(C, td, fd):
@@ -200,6 +251,8 @@ MUTANTS = [
     M("setstate does not restore xp", _S, "state[\"xp\"] = array_namespace(state[\"x\"])", "pass", "C16.pkl"),
 ]
 MUTANTS += [
+    M("from_dict stacks columns in mapping order", _S, "x = np.stack([samples[p] for p in parameters], axis=-1)", "x = np.stack(list(samples.values()), axis=-1)", "C16.dictorder"),
+    M("to_dict zips sorted names", _S, "samples = dict(zip(self.parameters, self.x.T, strict=True))\n        if flat:", "samples = dict(zip(sorted(self.parameters), self.x.T, strict=True))\n        if flat:", "C16.dictorder"),
     M("from_dict passes derived fields on", _S, "dictionary = {k: v for k, v in dictionary.items() if k in init_names}\n", "", "C16.dict"),
     M("SMC concatenate loses beta", _S, "if all(s.beta == first.beta for s in samples):\n            out.beta = first.beta\n", "", "C16.cat"),
     M("SMC concatenate takes evidence of the last piece only", _S, "out.log_evidence = first.log_evidence", "out.log_evidence = None", "C16.cat"),
